@@ -198,33 +198,33 @@ Qed.
 Lemma rel_st4 : forall s n, rel s (st4 s n).
 Proof. intros. unfold st4. apply rel_fold. intros s0 x. destruct (N.eqb _ _); [apply rel_mark|apply rel_refl]. Qed.
 
-Lemma rel_on_node : forall f s n v, rel s (on_node f s n v).
+Lemma rel_on_node_forced : forall f s n v, rel s (on_node_forced f s n v).
 Proof.
-  intros f s n v. rewrite on_node_eq. cbv zeta. destruct (opt_eqb _ _ _); [apply rel_refl|].
+  intros f s n v. rewrite on_node_forced_eq. cbv zeta.
   eapply rel_trans; [apply rel_st1|]. eapply rel_trans; [apply rel_st2|]. eapply rel_trans; [apply rel_st3|apply rel_st4].
 Qed.
+Lemma rel_on_node : forall f s n v, rel s (on_node f s n v).
+Proof. intros f s n v. unfold on_node. destruct (node_unchanged s n v); [apply rel_refl|apply rel_on_node_forced]. Qed.
 
 Definition weps32 (s : st) : Prop := forall id l c, aget N.eqb (s_weps s) id = Some l -> In c l -> plen c = 32%nat.
 
-Lemma rel_on_wep : forall s id cs, (forall c, In c cs -> plen c = 32%nat) -> weps32 s -> rel s (on_wep s id cs).
+Lemma rel_on_wep_forced : forall s id cs, (forall c, In c cs -> plen c = 32%nat) -> weps32 s -> rel s (on_wep_forced s id cs).
 Proof.
-  intros s id cs H32 W32. unfold on_wep.
-  destruct (aget N.eqb (s_weps s) id) as [old|] eqn:A.
-  2:{ destruct (list_eqb prefix_eqb [] cs); [apply rel_refl|]. simpl.
-      assert (R : rel s (fold_left (fun s c => nr_add (fst (update_cidr s c (fun r => with_wep r (S (ri_wep r))))) (me, c)) cs s)).
-      { apply rel_fold_in. intros s0 x Hx. eapply rel_trans; [|apply rel_nr_add].
-        apply (rel_upd_leaf _ _ (fun r => with_wep r (S (ri_wep r)))); [now apply H32|apply (keeps_sent_wep S)]. }
-      destruct cs; (eapply rel_trans; [exact R|apply rel_set_weps]). }
-  destruct (list_eqb prefix_eqb old cs); [apply rel_refl|].
+  intros s id cs H32 W32. unfold on_wep_forced. cbv zeta.
+  set (old := match aget N.eqb (s_weps s) id with Some l => l | None => [] end).
+  assert (O32 : forall c, In c old -> plen c = 32%nat).
+  { intros c Hc. unfold old in Hc. destruct (aget N.eqb (s_weps s) id) as [l|] eqn:A; [exact (W32 id l c A Hc)|destruct Hc]. }
   assert (R : rel s (fold_left (fun s c => nr_remove (fst (update_cidr s c (fun r => with_wep r (pred (ri_wep r))))) (me, c)) old
                       (fold_left (fun s c => nr_add (fst (update_cidr s c (fun r => with_wep r (S (ri_wep r))))) (me, c)) cs s))).
   { eapply rel_trans.
     2:{ apply rel_fold_in. intros s0 x Hx. eapply rel_trans; [|apply rel_nr_remove].
-        apply (rel_upd_leaf _ _ (fun r => with_wep r (pred (ri_wep r)))); [exact (W32 id old x A Hx)|apply (keeps_sent_wep pred)]. }
+        apply (rel_upd_leaf _ _ (fun r => with_wep r (pred (ri_wep r)))); [exact (O32 x Hx)|apply (keeps_sent_wep pred)]. }
     apply rel_fold_in. intros s0 x Hx. eapply rel_trans; [|apply rel_nr_add].
     apply (rel_upd_leaf _ _ (fun r => with_wep r (S (ri_wep r)))); [now apply H32|apply (keeps_sent_wep S)]. }
   destruct cs; (eapply rel_trans; [exact R|apply rel_set_weps]).
 Qed.
+Lemma rel_on_wep : forall s id cs, (forall c, In c cs -> plen c = 32%nat) -> weps32 s -> rel s (on_wep s id cs).
+Proof. intros s id cs H W. unfold on_wep. destruct (wep_unchanged s id cs); [apply rel_refl|now apply rel_on_wep_forced]. Qed.
 
 (* ---------------------------------------------------------------- the routes held downstream are up to date *)
 
